@@ -9,7 +9,8 @@ import RzilVerif.Lemmas.StmtLemmas
     discharged in `Props/C05Compose.lean`.  All statement forms the model executes are covered:
     declaration, simple/compound assignment to locals and registers, chained assignment, memory store,
     `if`/`else`, `for` with step `v++` and `v += k`, `JUMP`, the skip statements
-    (`exprstmt`/`ret` are rejected by `execC`/`compileStmt` themselves).
+    (`exprstmt`/`ret` are rejected by `WFStmt`/`compileStmt`; `execC` evaluates and discards a bare value).
+    Assignment targets: declared locals, registers, and immediates the lowering has registered (`riV = riV & ~3`).
   * the static side conditions are the computable `Ctx.ok`, `WFStmt` (`Model/StmtWF.lean`); dropping
     `WFStmt` is refuted: `stmt_correct_fixed_unrestricted_false` (`a = b += a`).
   T2: `stmt_asCode_eq_fixed`, `stmts_asCode_eq_fixed`, `prog_asCode_eq_fixed`,
@@ -87,7 +88,7 @@ theorem stmt_main : ∀ f : Nat,
           clear hex hex1
           simp only [WFStmt, Bool.and_eq_true] at hwf
           simp only [exprsOf] at hWF
-          have hsim := expr_sim hE henv (hinv.rel.agreeOn _ _) hinv.inv (hWF.mono (by simp)) hvc hcc
+          have hsim := expr_sim hE henv (hinv.rel.agreeOn _ _ _) hinv.inv hinv.immVal (hWF.mono (by simp)) hvc hcc
           have hcond := sim_cond hsim hb
           rw [henv]
           cases b with
@@ -114,7 +115,7 @@ theorem stmt_main : ∀ f : Nat,
           clear hex hex1
           simp only [WFStmt, Bool.and_eq_true] at hwf
           simp only [exprsOf] at hWF
-          have hsim := expr_sim hE henv (hinv.rel.agreeOn _ _) hinv.inv (hWF.mono (by simp)) hvc hcc
+          have hsim := expr_sim hE henv (hinv.rel.agreeOn _ _ _) hinv.inv hinv.immVal (hWF.mono (by simp)) hvc hcc
           have hcond := sim_cond hsim hb
           rw [henv]
           cases b with
@@ -204,7 +205,7 @@ theorem stmt_main : ∀ f : Nat,
       obtain ⟨vc, hvc, hex1⟩ := bind_ok hex
       obtain ⟨b, hb, hex2⟩ := bind_ok hex1
       clear hex hex1
-      have hsim := expr_sim hE henv (hinv.rel.agreeOn _ _) hinv.inv (hWF.mono (by simp)) hvc hcc
+      have hsim := expr_sim hE henv (hinv.rel.agreeOn _ _ _) hinv.inv hinv.immVal (hWF.mono (by simp)) hvc hcc
       have hcond := sim_cond hsim hb
       cases b with
       | false =>
@@ -226,7 +227,10 @@ theorem stmt_main : ∀ f : Nat,
 /-- **C05 (T1), statements.** Under `Cfg.fixed`, if the C statement `s` runs from `σC` to `σC'` and the
     IL state `σIL` is related to `σC`, the compiled effect runs from `σIL` to a state related to `σC'`.
     `Inv c` is `StRel` plus the IL-side invariant (`SInv`: locals have their declared widths, every
-    immediate letter of the behaviour is set, source operands are unwritten) plus "no `h_tmpN` on the C side". -/
+    immediate letter of the behaviour is set to a 32-bit value, source operands are unwritten) plus `immVal` (the IL
+    local of every registered immediate letter holds the 32-bit value of the C side's CURRENT immediate — so the
+    invariant survives an assignment to an immediate, `riV = riV & ~3`) plus "no `h_tmpN` and no immediate letter is a
+    local on the C side".  `StRel` itself does not relate the two `imm` components. -/
 theorem stmt_correct_fixed {s : CStmt} {st st' : TSt} {eff : ILEffect}
     (hcomp : compileStmt env st s = .ok (eff, st')) (hwf : WFStmt c s = true)
     (hWF : WFHyp ms WF c (exprsOf s)) {σC σIL σC' : MState} (hinv : Inv c σC σIL)
@@ -244,7 +248,9 @@ theorem stmts_correct_fixed {ss : List CStmt} {st st' : TSt} {effs : List ILEffe
   obtain ⟨f, hf⟩ := ExecCs_iff.1 hex
   exact (stmt_main hE henv hc f).2.1 ss st effs st' σC σIL σC' hcomp hwf hWF hinv hf
 
-/-- the conclusion in the form of the specification: related final states -/
+/-- the conclusion in the form of the specification: related final states (`StRel`: registers, `.new` bank, memory,
+    store log, packet address, every C local; NOT the immediates — after `riV = e` the C side has a new `imm "r"`,
+    the IL side a new LOCAL `r`; that correspondence is `Inv.immVal`, kept by `stmt_correct_fixed`) -/
 theorem stmt_correct_fixed_rel {s : CStmt} {st st' : TSt} {eff : ILEffect}
     (hcomp : compileStmt env st s = .ok (eff, st')) (hwf : WFStmt c s = true)
     (hWF : WFHyp ms WF c (exprsOf s)) {σC σIL σC' : MState} (hinv : Inv c σC σIL)
@@ -257,8 +263,11 @@ end Main
 
 /-! ## whole behaviours -/
 
-/-- **C05 (T1), whole behaviour.** Both sides start from the same state without locals; the C program and
-    the compiled effect (prologue setting all immediates, then the statements) end in related states. -/
+/-- **C05 (T1), whole behaviour.** Both sides start from the same state without locals (in particular with the SAME
+    immediates: the prologue reads them); the C program and the compiled effect (prologue setting all immediates, then
+    the statements) end in related states.  `StRel` does not relate the immediates of the final states: they are not an
+    observable output, and the behaviour may assign to them.  For behaviours that do not, `imm_eq_of_noImmTargets`
+    (Lemmas/ImmFrame.lean) adds `σC'.imm = σIL'.imm`. -/
 theorem prog_correct_fixed {ms : MacroSem} {WF : MState → CExpr → Prop} (hE : ExprOK ms WF)
     {c : Ctx} (hc : c.ok = true) {prog : List CStmt} {eff : ILEffect}
     (hcomp : compileProg Cfg.fixed prog = .ok eff)
@@ -275,7 +284,7 @@ theorem prog_correct_fixed {ms : MacroSem} {WF : MState → CExpr → Prop} (hE 
   obtain ⟨σ1, hpro, h1, h2, h3, h4, h5, h6, h7, hout, hin⟩ := prologue_exec ms st.imms σ0
   have hnone : ∀ n, lookupS n σ0.locals = none := by intro n; rw [hloc]; rfl
   have hinv : Inv c σ0 σ1 := by
-    refine ⟨⟨h1.symm, h2.symm, h3.symm, h4.symm, h5.symm, h6.symm, h7.symm, ?_⟩, ⟨?_, ?_, ?_⟩, ?_⟩
+    refine ⟨⟨h1.symm, h2.symm, h3.symm, h4.symm, h6.symm, h7.symm, ?_⟩, ⟨?_, ?_, ?_⟩, ?_, ?_, ?_⟩
     · intro n v hn; rw [hnone] at hn; cases hn
     · intro n t v hn hv
       have hni : n ∉ st.imms.map (·.1) := by
@@ -283,10 +292,12 @@ theorem prog_correct_fixed {ms : MacroSem} {WF : MState → CExpr → Prop} (hE 
         exact (Ctx.ok_types hc hn).2.2 ((himms n).2 hm)
       rw [hout n hni, hnone] at hv; cases hv
     · intro l hl
-      rw [h5]
-      exact hin l (hpi ▸ (himms l).1 hl)
+      exact ⟨_, hin l (hpi ▸ (himms l).1 hl)⟩
     · intro ov hov; rw [h3]; exact hsrcs ov hov
+    · intro l hl
+      exact hin l (hpi ▸ (himms l).1 hl)
     · intro n _; exact hnone n
+    · intro l _; exact hnone l
   obtain ⟨σIL', hx, hinv'⟩ := stmts_correct_fixed hE (env := { assigned := assignedOfList prog, cfg := Cfg.fixed })
     rfl hc hcs hwf hWF hinv hex
   exact ⟨σIL', mkSeq_exec.2 (ExecSeqIL_append hpro hx), hinv'.rel⟩
@@ -317,7 +328,8 @@ theorem prog_asCode_eq_fixed {CarveE : CExpr → Bool} (prog : List CStmt)
   simp only [codeEnv, fixedEnv] at this
   simp only [this]
 
-/-- T1 + T2: on the carve-out the lowering AS CODED preserves the C semantics -/
+/-- T1 + T2: on the carve-out the lowering AS CODED preserves the C semantics (final states: `StRel`, which does not
+    relate the immediates, see `prog_correct_fixed`) -/
 theorem prog_correct_asCode_on_carveout {ms : MacroSem} {WF : MState → CExpr → Prop} (hE : ExprOK ms WF)
     {CarveE : CExpr → Bool} {prog : List CStmt}
     (hT2 : ExprT2 { assigned := assignedOfList prog, cfg := Cfg.fixed } CarveE)
@@ -662,7 +674,7 @@ example : ∃ eff σC' σIL', compileProg Cfg.fixed demoProg = .ok eff ∧ ExecC
     have : progImms demoProg = [] := by decide
     intro l; rw [this]; simp [demoCtx]
   have hWF : WFHyp noMacros WFSimple demoCtx (exprsOfList demoProg) := by
-    intro e he σ vC hinv hev
+    intro e he σ vC hinv _ hev
     simp (config := { decide := true }) [demoProg, exprsOfList, exprsOf] at he
     have hvar : ∀ n t, lookupS n demoCtx.types = some t → evalC noMacros σ (.var n t) = .ok vC →
         WFSimple σ (.var n t) := by
@@ -744,7 +756,7 @@ theorem stmt_correct_fixed_unrestricted_false : ¬ stmt_correct_fixed_unrestrict
   obtain ⟨⟨eff, st'⟩, hcomp⟩ := isOk_elim (x := compileStmt chainEnv { imms := [], hyb := 0 } chainStmt) (by decide)
   obtain ⟨σC', hC⟩ := isOk_elim (x := execC noMacros 5 chainStmt chainState) (by decide)
   have hWF : WFHyp noMacros WFSimple chainCtx (exprsOf chainStmt) := by
-    intro e he σ vC hinv hev
+    intro e he σ vC hinv _ hev
     simp (config := { decide := true }) [chainStmt, exprsOf] at he
     have hvar : ∀ n t, lookupS n chainCtx.types = some t → evalC noMacros σ (.var n t) = .ok vC →
         WFSimple σ (.var n t) := by
@@ -757,18 +769,20 @@ theorem stmt_correct_fixed_unrestricted_false : ¬ stmt_correct_fixed_unrestrict
         exact ⟨x, hl⟩
     rcases he with rfl | rfl <;> exact hvar _ _ (by decide) hev
   have hinv : Inv chainCtx chainState chainState := by
-    refine ⟨StRel.refl _, ⟨?_, ?_, ?_⟩, ?_⟩
+    refine ⟨StRel.refl _, ⟨?_, ?_, ?_⟩, ?_, ?_, ?_⟩
     · intro n t v hn hv
       rcases lookupS_two hn with ⟨rfl, rfl⟩ | ⟨rfl, rfl⟩ <;>
         rcases lookupS_two hv with ⟨h, rfl⟩ | ⟨h, rfl⟩ <;> first | exact ⟨_, rfl⟩ | (revert h; decide)
     · intro l hl; simp [chainCtx] at hl
     · intro ov hov; simp [chainCtx] at hov
+    · intro l hl; simp [chainCtx] at hl
     · intro n hn
       cases hl : lookupS n chainState.locals with
       | none => rfl
       | some v =>
         exfalso
         rcases lookupS_two hl with ⟨rfl, _⟩ | ⟨rfl, _⟩ <;> (revert hn; decide)
+    · intro l hl; simp [chainCtx] at hl
   obtain ⟨σIL', hx, hrel⟩ := H noMacros WFSimple (exprOK_simple _) chainCtx chainEnv rfl (by decide)
     chainStmt _ st' eff hcomp hWF chainState chainState σC' hinv (ExecC_iff.2 ⟨5, hC⟩)
   -- the C side ends with b = 3
